@@ -30,6 +30,7 @@ type taskState struct {
 	steps    uint64
 	pw       uint64   // shared-write-ish sites hit
 	pwSteps  []uint64 // step numbers at which PW sites were hit (recorded in counting mode)
+	psSteps  []uint64 // step numbers at which statements with a sync / atomic call were hit
 	done     bool
 	switches []Switch // sorted by Step
 	next     int      // index into switches
@@ -61,6 +62,27 @@ func P(site int) {
 func PW(site int) {
 	if !on {
 		return
+	}
+	step(true)
+}
+
+// PS is called in front of statements that contain a call on a sync or sync/atomic
+// object (Load, Store, LoadOrStore, CompareAndSwap, Lock, Do, ...): the statement
+// executed next is "right after the synchronisation operation", the classic place
+// where a publish-then-fill or check-then-act window opens.
+func PS(site int) {
+	if !on {
+		return
+	}
+	stepSync()
+}
+
+//go:norace
+//go:noinline
+func stepSync() {
+	t := tasks[cur]
+	if recordPW && len(t.psSteps) < 4096 {
+		t.psSteps = append(t.psSteps, t.steps+1)
 	}
 	step(true)
 }
@@ -160,6 +182,7 @@ type Result struct {
 	Steps   []uint64   // statements executed per task
 	PW      []uint64   // shared-write-ish sites hit per task
 	PWSteps [][]uint64 // per task: the step numbers of PW hits (counting mode only)
+	PSSteps [][]uint64 // per task: the step numbers of statements with a sync / atomic call (counting mode only)
 	Fired   uint64
 }
 
@@ -195,6 +218,7 @@ func teardown() Result {
 		r.Steps = append(r.Steps, t.steps)
 		r.PW = append(r.PW, t.pw)
 		r.PWSteps = append(r.PWSteps, t.pwSteps)
+		r.PSSteps = append(r.PSSteps, t.psSteps)
 	}
 	return r
 }
